@@ -12,7 +12,7 @@
 (* the specification's step" and "the logged state satisfies the            *)
 (* property's predicate".  Empty set = the event conforms.                 *)
 (***************************************************************************)
-EXTENDS Rules
+EXTENDS Observers
 
 Tag(c, x) == <<c, ToString(x)>>
 C(c) == <<c, "">>
@@ -39,6 +39,33 @@ StateClauses(I, F, post) ==
   \cup If(post.der.nsch # NumScheduled(c.sched), {C("C02:count")})
   \cup {Tag("C05:cache-stale", q) : q \in CacheIncoherent(I, F, post)}
   \cup If(~post.instok, {C("C14:instance-modified")})
+
+(* --- built-in observers: property-level predicates on the LOGGED observers -- *)
+SameObs(a, b) == a.t = b.t /\ \A k \in (DOMAIN a \cap DOMAIN b) \ {"t", "name", "comps", "cols"} : a[k] = b[k]
+ObsListDiff(name, exp, got) ==
+    IF Len(exp) # Len(got) THEN {Tag(name, "number-of-subscribers")}
+    ELSE {Tag(name, got[i].t) : i \in {k \in DOMAIN got : ~SameObs(exp[k], got[k])}}
+(* exp = the observer records the implementation-shaped specification expects  *)
+(* after this event: a deviation from the DEFINITION is labelled "as-modelled"  *)
+(* when the logged value is exactly the one the transcribed algorithm yields    *)
+(* (that is how the recorded findings are recognised), "unexplained" otherwise. *)
+ObsStateClauses(T, post, exp) ==
+    IF ~T.featcheck THEN {} ELSE
+    LET I == T.inst  F == T.filt  c == post.core
+        how(i, ft, k) == IF Len(exp) = Len(post.obs) /\ exp[i].t = post.obs[i].t /\ "f" \in DOMAIN exp[i]
+                            /\ ft \in DOMAIN exp[i].f /\ exp[i].f[ft][k] = post.obs[i].f[ft][k]
+                         THEN "as-modelled" ELSE "unexplained"
+    IN
+    UNION { LET o == post.obs[i] IN
+               (IF "f" \in DOMAIN o
+                THEN {Tag("C11:feat", <<o.t, d[1], d[2], d[3], how(i, d[1], d[4])>>) : d \in FeatDeviations(I, c, F, o)} ELSE {})
+          \cup If(o.t = "CompositeFeatureObserver" /\ ~CompositeOK(post.obs, o), {C("C11:composite")})
+          \cup If(o.t \in {"MakespanReward", "IdleTimeReward"} /\ ~RewardsOK(I, c, o, NumScheduled(c.sched)),
+                  {Tag("C13:rewards", o.t)})
+          \cup If(o.t = "UnscheduledOperationsObserver"
+                    /\ (o.dq # DequesFor(I, c) \/ o.n # Cardinality(UnscheduledOps(I, c.sched))),
+                  {C("C05:unscheduled-observer")})
+          : i \in DOMAIN post.obs }
 
 NotingKinds == {"rec", "histsub"}
 HistKinds == {"hist", "histsub"}
@@ -106,6 +133,8 @@ DispatchClauses(T, prev, ev, post) ==
         \cup HistClauses(T.kinds, prev, post, e, FALSE)
         \cup If(post.subs # prev.subs, {C("C10:subscribers-changed")})
         \cup TimeClauses(I, T.filt, s, c)
+        \cup ObsListDiff("D:drift", NotifyAll(I, c, T.filt, prev.obs, e), post.obs)
+        \cup ObsStateClauses(T, post, NotifyAll(I, c, T.filt, prev.obs, e))
         ELSE {})
   \cup (IF ~ok THEN
              If(c # s, {C("C09:state-changed-on-reject")})
@@ -126,6 +155,9 @@ ResetClauses(T, prev, ev, post) ==
   \cup HistClauses(T.kinds, prev, post, <<>>, TRUE)
   \cup If(post.subs # prev.subs, {C("C10:subscribers-changed")})
   \cup StateClauses(T.inst, T.filt, post)
+  \cup ObsListDiff("D:drift-reset", ResetAll(T.inst, InitState(T.inst), T.filt, prev.obs, "deps_first"), post.obs)
+  \cup (IF T.featcheck THEN ObsListDiff("C12:reset-differs-from-fresh", T.fresh_obs, post.obs) ELSE {})
+  \cup ObsStateClauses(T, post, ResetAll(T.inst, InitState(T.inst), T.filt, prev.obs, "deps_first"))
 
 QueryClauses(T, prev, ev, post) ==
        If(ev.out # "ok", {Tag("C05:query-raised", ev.q)})
@@ -247,6 +279,23 @@ CpSatClauses(T, prev, ev, post) ==
       \cup If(ev.status = "optimal" /\ ev.small /\ MakespanDef(I, ev.sched) # Opt(I), {Tag("C03:not-optimal", ev.mode)})
       \cup If(post.core # prev.core, {C("C03:changed-caller-state")})
 
+(* --- construction of a built-in observer; the same calls on fresh objects ---- *)
+SingletonClasses == {"UnscheduledOperationsObserver", "HistoryObserver", "MakespanReward", "IdleTimeReward",
+                     "ResidualGraphUpdater"}
+CreateObsClauses(T, prev, ev, post) ==
+    LET dup == ev.t \in SingletonClasses /\ \E i \in DOMAIN prev.obs : prev.obs[i].t = ev.t IN
+       If(ev.out # "ok" /\ ~dup, {Tag("C11:construct-raised", <<ev.t, ev.out>>)})
+  \cup If(ev.out = "ok" /\ dup, {Tag("C10:singleton-accepted", ev.t)})
+  \cup (IF ev.out = "ok" /\ ev.t # "CompositeFeatureObserver"
+        THEN ObsListDiff("D:drift-create",
+                         ObsCreate(T.inst, prev.core, T.filt, prev.obs, ev.t, Rng(ev.fts)), post.obs)
+        ELSE {})
+  \cup If(post.core # prev.core, {C("C11:construct-changed-state")})
+  \cup (IF ev.out = "ok" THEN ObsStateClauses(T, post, post.obs) ELSE {})
+FreshRunClauses(T, prev, ev, post) ==
+       If(ev.core # prev.core, {C("C12:core-differs-from-fresh-run")})
+  \cup ObsListDiff("C12:differs-from-fresh-run", ev.obs, prev.obs)
+
 KindsOf(kinds, subs) == [i \in DOMAIN subs |-> IF subs[i] = 0 THEN "other" ELSE kinds[subs[i]]]
 
 CreateClauses(T, prev, ev, post) ==
@@ -285,6 +334,8 @@ DClauses(T, l, prev, post) ==
            [] ev.a = "SolverCall"  -> SolverCallClauses(T, prev, ev, post)
            [] ev.a = "BestFiltered" -> BestFilteredClauses(T, prev, ev, post)
            [] ev.a = "CpSat"       -> CpSatClauses(T, prev, ev, post)
+           [] ev.a = "CreateObs"   -> CreateObsClauses(T, prev, ev, post)
+           [] ev.a = "FreshRun"    -> FreshRunClauses(T, prev, ev, post)
            [] ev.a = "Replay"      -> ReplayClauses(T, prev, ev, post)
            [] ev.a = "Create"      -> CreateClauses(T, prev, ev, post)
            [] ev.a = "Unsub"       -> UnsubClauses(T, prev, ev, post)
